@@ -429,6 +429,13 @@ def mk_rangelen(dist):
     return ('rangelen', dist)
 
 
+def canon_range(n):
+    """range(0, n): as an iteration space max(0, d) and d are the same bound (a negative d is an empty range either way)"""
+    if n[0] == 'rangelen':
+        n = n[1]
+    return ('range', C(0), n, C(1))
+
+
 def canon_seq(S, opts=None):
     """(length term, k -> element term) for an iterable that is certainly indexable, else None (opaque iterator)"""
     tag = S[0]
@@ -1705,7 +1712,7 @@ class PE:
                 ci = canon_iter(it, self.opts)
                 if ci is not None or it[0] == 'range':
                     if ci is not None:
-                        it = ('range', C(0), ci[0], C(1))
+                        it = canon_range(ci[0])
                         self.bind_target(g.target, ci[1](('bv', d, gi, 'num')), env2)
                     else:
                         self.bind_pattern_syms(g.target, env2, lambda path, gi=gi: ('bv', d, gi) + path + ('num',))
@@ -1925,6 +1932,17 @@ class PE:
             name_ = fnode.attr if isinstance(fnode, ast.Attribute) else (fnode.id if isinstance(fnode, ast.Name) else None)
             if name_ is not None and g_[0] in ('attr', 'g'):
                 for i_ in pur.params_written(name_):
+                    if i_ >= len(n.args) and getattr(self, 'sig_of', None) is not None and g_[0] == 'g':
+                        # the written parameter is passed by keyword: f(l, s, r=r)
+                        sg_ = self.sig_of(name_)
+                        kws_ = [k_ for k_ in n.keywords if sg_ and i_ < len(sg_) and k_.arg == sg_[i_]]
+                        if kws_ and self.is_place(kws_[0].value):
+                            cur_ = self.ev(kws_[0].value, env)
+                            if not is_c(cur_) and kind_of(cur_) != 'num':
+                                full_ = tuple(args) + tuple(k_[2] for k_ in kw)
+                                rest_ = tuple((('recv',) if x_ == cur_ else x_) for x_ in full_)
+                                self.store(kws_[0].value, ('mut', 'arg%d:%s' % (i_, name_), cur_, self._args_sans(cur_, rest_)), env, True)
+                        continue
                     if i_ < len(n.args) and self.is_place(n.args[i_]) and not isinstance(n.args[i_], ast.Starred):
                         cur_ = self.ev(n.args[i_], env)
                         if not is_c(cur_) and kind_of(cur_) != 'num':
@@ -2094,6 +2112,20 @@ class PE:
 
     def call(self, f, args, kw, env, node=None):
         args = tuple(args)
+        if self.module_mode and f[0] == 'g' and not kw and getattr(self, 'module_funcs', None) and f[1] in self.module_funcs \
+                and args and all(concrete(a) for a in args):
+            # TABLE = helper(CONSTANT) at module level: the helper applied to constants is folded like any other table formula
+            sub = PE(self.resolve_global, self.global_values, self.unroll, self.opts, self.inline, self.call_hook)
+            sub.lam_depth = self.lam_depth + 10
+            sub.closures = self.closures + [env]
+            sub.purity = self.purity
+            try:
+                sm = sub.run_function(self.module_funcs[f[1]], args=list(args))
+                r = effects_value(sm.effects)
+            except (Unsupported, RecursionError, StaticRaise):
+                r = None
+            if r is not None and concrete(r):
+                return r
         if f[0] == 'lfn' and f[1] in self.local_fdefs and not any(a[0] == 'star' for a in args):
             # a nested function that is a pure expression of its arguments (checked: it shares no changing state with the
             # enclosing function) is written out at the call, like a module-level helper
@@ -2174,6 +2206,15 @@ class PE:
             for x_ in args[0][1][1:]:
                 acc = ('+', (acc[1] + (x_,)) if acc[0] == '+' and kind_of(acc) != 'num' else (acc, x_))
             return acc if len(args[0][1]) > 1 else args[0][1][0]      # b''.join([a, b, c]) is a + b + c
+        if f[0] == 'b' and f[1] in ('any', 'all', 'sum', 'sorted', 'max', 'min', 'set', 'tuple', 'list', 'frozenset') and len(args) == 1 and not kw \
+                and args[0][0] == 'call' and args[0][1] == ('b', 'list') and len(args[0][2]) == 1 and not args[0][3]:
+            args = (args[0][2][0],)            # any(list(S)) is any(S): the consumer only iterates
+        if f[0] == 'b' and f[1] == 'all' and len(args) == 1 and not kw and args[0][0] == 'comp' and args[0][1] == 'list' \
+                and args[0][3][0] == 'not' and len(args[0][4]) == 1 and not args[0][4][0][1]:
+            # all(not c for c in S)  is  not any(S)
+            d_ = args[0][2]
+            inner = mk_comp('list', d_, args[0][3][1], args[0][4])
+            return mk_not(self.call(('b', 'any'), (inner,), (), env))
         if f[0] == 'b' and f[1] == 'len' and len(args) == 1 and not kw and args[0][0] == 'or' and len(args[0][1]) == 2:
             a_, b_ = args[0][1]
             return mk_ite(a_, self.call(f, (a_,), (), env), self.call(f, (b_,), (), env))      # len(a or b)
@@ -2189,7 +2230,7 @@ class PE:
                 finally:
                     self.lam_depth -= 1
                 if elt is not None:
-                    return mk_comp('list', d_, elt, ((('range', C(0), ci[0], C(1)), ()),))
+                    return mk_comp('list', d_, elt, ((canon_range(ci[0]), ()),))
         if f[0] == 'b' and f[1] == 'map' and len(args) == 2 and not kw and args[0][0] in ('lam', 'attr', 'g', 'b'):
             ci = canon_iter(args[1], self.opts)
             if ci is not None or args[1][0] == 'range':
@@ -2200,9 +2241,9 @@ class PE:
                         it_, x_ = args[1], ('bv', d_, 0, 'num')
                         if not (it_[1] == C(0) and it_[3] == C(1)):
                             cs = canon_seq(it_, self.opts)
-                            it_, x_ = ('range', C(0), cs[0], C(1)), cs[1](('bv', d_, 0, 'num'))
+                            it_, x_ = canon_range(cs[0]), cs[1](('bv', d_, 0, 'num'))
                     else:
-                        it_, x_ = ('range', C(0), ci[0], C(1)), ci[1](('bv', d_, 0, 'num'))
+                        it_, x_ = canon_range(ci[0]), ci[1](('bv', d_, 0, 'num'))
                     elt = self.call(shift_binders(args[0], d_, 1), (x_,), (), env)
                 finally:
                     self.lam_depth -= 1
@@ -2291,7 +2332,7 @@ class PE:
         phi = ('phi', L, 0) + suf
         if ci is not None:
             n, g = ci
-            it = ('range', C(0), n, C(1))
+            it = canon_range(n)
             x = g(('it', L, 'num'))
         else:
             it = S
@@ -2362,7 +2403,7 @@ class PE:
             if name == 'zip' and args:
                 its = [iter_items(a) for a in args]
                 if all(i is not None for i in its):
-                    return ('list', tuple(('tuple', tuple(x)) for x in zip(*its)))
+                    return ('list', tuple((('list', tuple(x)) if all(concrete(y) for y in x) else ('tuple', tuple(x))) for x in zip(*its)))   # constant rows: the table form
                 return None
             if name == 'sum' and len(args) in (1, 2):
                 it = iter_items(args[0])
@@ -3064,7 +3105,7 @@ class PE:
         ci = canon_iter(it, self.opts)
         if ci is not None:
             n, g = ci
-            self.loop_summary('for', s, ('range', C(0), n, C(1)), env, effects, lambda its, cnt: g(its))
+            self.loop_summary('for', s, canon_range(n), env, effects, lambda its, cnt: g(its))
         elif it[0] == 'call' and it[1] == ('b', 'enumerate') and len(it[2]) in (1, 2) and not it[3]:
             # enumerate over an opaque iterator: the loop over the iterator itself, the index is the iteration counter
             start = it[2][1] if len(it[2]) == 2 else C(0)
@@ -3355,7 +3396,7 @@ class PE:
                         if how == 'chain':
                             ci = canon_iter(e2, self.opts)
                             if ci is not None:
-                                gens.append((('range', C(0), ci[0], C(1)), ()))
+                                gens.append((canon_range(ci[0]), ()))
                                 elt = ci[1](('bv', d, 1, 'num'))
                             else:
                                 gens.append((e2, ()))
